@@ -88,6 +88,9 @@ type SchedParams struct {
 	YieldUnlock float64 `json:"yield_unlock,omitempty"`
 	// YieldWrite: probability that handing a message to a connection's write queue is preceded by a park point
 	YieldWrite float64 `json:"yield_write,omitempty"`
+	// YieldNotify: probability that the in-process notify handler (the embedding application's code) is descheduled
+	// before it handles an event (a slow handler: later events queue up behind it)
+	YieldNotify float64 `json:"yield_notify,omitempty"`
 }
 
 type lockReq struct {
